@@ -246,7 +246,7 @@ def builtin_corpus():
         [F('f', V('_'), V('_')), F('f', V('X'), V('X')), F('f', V('_'), V('X'), V('_'))],
         [F('hello world', A("it's")), F("it's", A('hello world'), L(A("'"))), F('', A('')), F('[]', L())],
         [F('=', A('a'), A('b')), F('-', ['num', '1']), F('-', F('-', ['num', '1'])), F('+', A('a')), F('\\==', V('X'), L())],
-        [F('f', F('f', F('f', F('f', F('f', F('f', A('deep')))))))), L(L(L(L(L(L(A('deep')))))))],
+            [F('f', F('f', F('f', F('f', F('f', F('f', A('deep'))))))), L(L(L(L(L(L(A('deep')))))))],
         [A('é'), A('é'), A('\U0001F600'), F('\U0001F600', A('\U0001F600')), L(A('日本語'), A('ß'))],
         [A('two\nlines'), A('x\r\ny'), F('two\nlines', A('\n'))],
     ]
